@@ -827,6 +827,13 @@ func schedCheck(prop, tier string) int {
 			os.RemoveAll(sbroot)
 		}()
 		out := pool.RunWorker([]string{"sched", prop, tier, strconv.Itoa(k * per), strconv.Itoa((k + 1) * per)}, nil, budget(tier), true, "VERIF_SANDBOX="+sbroot, "VERIF_SCHED_ROOT="+shared)
+		if out.TimedOut && out.ExitCode != 3 {
+			// the wall-clock budget ran out (a loaded machine, a slower tree): not a verdict about the property
+			run.Add("workers_out_of_budget", 1)
+			run.Set("exhaustive", false)
+			run.Set("cap", "a worker exceeded the wall-clock budget of this tier; its share of the space was not completed")
+			return
+		}
 		if out.Crashed() {
 			c := cfgs[min(int(out.Progress[0]), len(cfgs)-1)]
 			run.Report(ev.Violation{Key: "worker-crash " + c.describe(), Class: "process-crash", What: fmt.Sprintf("worker died (exit=%d signal=%s timeout=%v) exploring %s: %s", out.ExitCode, out.Signal, out.TimedOut, c.describe(), firstLines(string(out.Stderr), 8)),
@@ -975,6 +982,7 @@ type c08SchedOut struct {
 	States   int64          `json:"states"`
 	MaxSched int64          `json:"max_schedules_per_input"`
 	Leaky    int64          `json:"inputs_leaving_the_lexer_goroutine_blocked"`
+	Budget   int64          `json:"workers_out_of_budget"`
 	Viol     []ev.Violation `json:"viol"`
 }
 
@@ -1093,6 +1101,10 @@ func c08SchedCheck(tier string) int {
 		out := pool.RunWorker([]string{"sched08", tier, strconv.Itoa(sh.si), strconv.FormatInt(sh.lo, 10), strconv.FormatInt(sh.hi, 10)}, nil, budget(tier), true)
 		mu.Lock()
 		defer mu.Unlock()
+		if out.TimedOut && out.ExitCode != 3 {
+			total.Budget++ // wall-clock budget, not a verdict (a hang inside one input ends with the watchdog's exit code)
+			return
+		}
 		if out.Crashed() {
 			var culprit string
 			sp.Gen(out.Progress[0], func(in lang.Input) {
@@ -1161,9 +1173,10 @@ func init() {
 }
 
 type c17SchedOut struct {
-	Calls int64          `json:"calls"`
-	Execs int64          `json:"execs"`
-	Viol  []ev.Violation `json:"viol"`
+	Calls  int64          `json:"calls"`
+	Execs  int64          `json:"execs"`
+	Budget int64          `json:"workers_out_of_budget"`
+	Viol   []ev.Violation `json:"viol"`
 }
 
 // worker: mc worker sched17 <lo> <hi>   (top-level variant range, sandbox in VERIF_SANDBOX)
@@ -1260,6 +1273,10 @@ func c17SchedCheck(tier string) int {
 		out := pool.RunWorker([]string{"sched17", strconv.Itoa(k), strconv.Itoa(k + 1)}, nil, budget(tier), true, "VERIF_SANDBOX="+sbroot)
 		mu.Lock()
 		defer mu.Unlock()
+		if out.TimedOut && out.ExitCode != 3 {
+			total.Budget++
+			return
+		}
 		if out.Crashed() {
 			total.Viol = append(total.Viol, ev.Violation{Engine: "schedmc-c17", Key: fmt.Sprintf("sched worker %d", k), Class: "process-crash-or-hang",
 				What: fmt.Sprintf("worker died or hung (exit=%d signal=%s timeout=%v): %s", out.ExitCode, out.Signal, out.TimedOut, firstLines(string(out.Stderr), 5)), Case: map[string]any{"k": k}})
